@@ -108,12 +108,15 @@ def find_and_delete(script, sig):
     else:
         pat = b"\x4e" + struct.pack("<I", n) + sig
     out = bytearray()
+    last = 0
     try:
         for op, data, a, b in script_ops(script):
             if script[a:b] != pat:
                 out += script[a:b]
+            last = b
     except BadScript:
-        return script
+        # consensus (FindAndDelete): matches in front of an undecodable tail are removed, the tail is kept verbatim
+        return bytes(out) + script[last:]
     return bytes(out)
 
 
